@@ -39,6 +39,7 @@ func ruleC18(w *World, r *Report) {
 	r.Explanation = "R18.1 LoadConfigFile: every success return is dominated by validateConf(conf)==nil on the value that is returned, no field is written after validation, every error return hands back the zero Conf; R18.2 default table: each documented default is stored with the documented constant (2s, 5, 15s, 5s, info, TC 3) — pre-decode defaults before Unmarshal, post-decode defaults only under 'field is zero' (and heartbeat only when enabled); no other field is rewritten; " +
 		"R18.3 validator facts: for each (parser, field, condition) the nil return of validateConf is unreachable unless the parse succeeded, and under the condition every path to it runs the parse; mode ∈ literal set ⊆ the modes conf/ports.py accepts for BESS, mode empty for P4; every peer is parsed (full loop); R18.4 consumer⊆validator: every parse of a Conf field whose failure ends the process (NewUPF, UP4.SetUpfInfo, MustParseStrIP) is covered by a validator fact whose condition is implied by the consumer's; the UP4 datapath is only constructed under EnableP4rt; " +
 		"R18.5 crash obligations of the loader functions, the comment pattern compiles; R18.6 structure of the comment pattern (regexp/syntax tree): line comment to end of line under (?m), block comment with a lazy body that cannot cross a newline; R18.7 shipped samples: comments only of the two supported shapes and outside strings, no string contains a comment marker, Go-known keys carry values of the field's JSON kind, validator-relevant literals satisfy the validator's facts."
+	r.Explanation += " R18.8 no custom UnmarshalJSON/UnmarshalText between Conf and a pre-decode default replaces its receiver with a value that does not start from the receiver."
 	r.NotDecided = "behaviour of encoding/json, regexp and time.ParseDuration themselves; 'every sample loads' beyond the cross-artifact agreement of R18.7; NewIPPool's own size limit (a /31 or /32 pool parses but is refused at start-up)"
 
 	load := w.Fn(P, "pfcpiface.LoadConfigFile")
@@ -254,6 +255,13 @@ func ruleC18(w *World, r *Report) {
 	ruleC18Pattern(w, r, rm)
 	// ---------- R18.7 samples
 	ruleC18Samples(w, r, val)
+	preDefaults := map[string]bool{}
+	for k, d := range table {
+		if d.pre {
+			preDefaults[k] = true
+		}
+	}
+	ruleC18CustomDecoders(w, r, preDefaults)
 }
 
 // importedConst finds an integer constant of an imported (non-repo) package.
@@ -1208,4 +1216,138 @@ func jsonKindOf(t types.Type) string {
 		return "array"
 	}
 	return ""
+}
+
+// ruleC18CustomDecoders (R18.8): a default that is stored before decoding survives decoding only if no
+// decoder replaces the enclosing struct wholesale. encoding/json fills fields in place; a custom
+// UnmarshalJSON / UnmarshalText on a type between Conf and the defaulted field that assigns `*recv = …`
+// from a fresh value throws the pre-set default away whenever the document mentions the enclosing object.
+func ruleC18CustomDecoders(w *World, r *Report, pre map[string]bool) {
+	const P = "C18"
+	confT := w.NamedType(P, pfcpPkg, "Conf")
+	// struct types on the way from Conf to a field with a pre-decode default
+	type step struct {
+		t    *types.Named
+		path string
+	}
+	var onPath []step
+	var walk func(t types.Type, path string, depth int)
+	walk = func(t types.Type, path string, depth int) {
+		if depth > 4 {
+			return
+		}
+		nt := namedOf(t)
+		if nt == nil {
+			return
+		}
+		st, ok := nt.Underlying().(*types.Struct)
+		if !ok {
+			return
+		}
+		covers := false
+		for p := range pre {
+			if path == "" || strings.HasPrefix(p, path+".") || p == path {
+				covers = true
+			}
+		}
+		if !covers {
+			return
+		}
+		onPath = append(onPath, step{nt, path})
+		for i := 0; i < st.NumFields(); i++ {
+			f := st.Field(i)
+			sub := f.Name()
+			if path != "" {
+				sub = path + "." + sub
+			}
+			walk(f.Type(), sub, depth+1)
+		}
+	}
+	walk(confT, "", 0)
+	r.floor("R18.8 struct types above a pre-decode default", len(onPath), 2)
+	for _, s := range onPath {
+		found := false
+		for _, name := range []string{"UnmarshalJSON", "UnmarshalText"} {
+			ms := w.Prog.MethodSets.MethodSet(types.NewPointer(s.t))
+			for i := 0; i < ms.Len(); i++ {
+				if ms.At(i).Obj().Name() != name {
+					continue
+				}
+				fn := w.Prog.MethodValue(ms.At(i))
+				if fn == nil || fn.Blocks == nil || !w.isRepoFunc(fn) || len(fn.Params) == 0 {
+					continue
+				}
+				found = true
+				recv := fn.Params[0]
+				allInstrs(fn, func(ins ssa.Instruction) {
+					st, ok := ins.(*ssa.Store)
+					if !ok || st.Addr != ssa.Value(recv) {
+						return
+					}
+					// the stored value must start out as the receiver's current value
+					keeps := derivesFromLoadOf(st.Val, recv, 0)
+					r.check(keeps, "R18.8", w.FuncName(fn), "a custom decoder of "+s.t.Obj().Name()+" keeps what was set before decoding", w.Pos(st.Pos()), "the replacement starts from *receiver", "the decoder overwrites the whole "+s.t.Obj().Name()+" with a freshly decoded value: defaults stored before json.Unmarshal (below "+ifelse(s.path == "", "Conf", s.path)+") are lost whenever the document contains this object without the field")
+				})
+			}
+		}
+		if !found {
+			r.ok("R18.8", "pfcpiface."+s.t.Obj().Name(), "no custom decoder replaces "+s.t.Obj().Name()+" (pre-decode defaults below it survive)", "-", "encoding/json fills the fields in place")
+		}
+	}
+}
+
+// derivesFromLoadOf: v is, or is built by conversions / field updates from, a load of *ptr.
+func derivesFromLoadOf(v ssa.Value, ptr ssa.Value, depth int) bool {
+	if depth > 8 {
+		return false
+	}
+	switch x := v.(type) {
+	case *ssa.UnOp:
+		if x.Op == token.MUL {
+			if x.X == ptr {
+				return true
+			}
+			// load of a local cell: every store to the cell's root must derive from *ptr first
+			if al, ok := rootAlloc(x.X); ok {
+				okAll, n := true, 0
+				for _, st := range storesTo(al) {
+					n++
+					if !derivesFromLoadOf(st.Val, ptr, depth+1) {
+						okAll = false
+					}
+				}
+				return okAll && n > 0
+			}
+		}
+	case *ssa.ChangeType:
+		return derivesFromLoadOf(x.X, ptr, depth+1)
+	case *ssa.Convert:
+		return derivesFromLoadOf(x.X, ptr, depth+1)
+	case *ssa.Field:
+		return derivesFromLoadOf(x.X, ptr, depth+1)
+	case *ssa.Phi:
+		for _, e := range x.Edges {
+			if !derivesFromLoadOf(e, ptr, depth+1) {
+				return false
+			}
+		}
+		return len(x.Edges) > 0
+	}
+	return false
+}
+
+func rootAlloc(v ssa.Value) (*ssa.Alloc, bool) {
+	for i := 0; i < 8; i++ {
+		switch x := v.(type) {
+		case *ssa.Alloc:
+			return x, true
+		case *ssa.FieldAddr:
+			v = x.X
+		case *ssa.IndexAddr:
+			v = x.X
+		default:
+			return nil, false
+		}
+	}
+	return nil, false
 }
